@@ -205,6 +205,8 @@ func runC12(e *Engine, r *Report, tier string) {
 			}
 		}
 	}
+	r.Rule("R8", "a signature is verified under exactly one message header per chain: the public-key recovery is not tried in a loop over alternatives (a confirmation accepted under another chain's header is unusable on the external contract and blocks the oracle's slot)", 2, "calls reaching the recover primitive in x/crosschain/types and x/tron/types")
+	e.c12SingleSignatureDomain(r)
 	r.Rule("R6", "an object's nonce is never handed out twice: genesis import restores a single-valued counter (latest oracle-set nonce, …) as the maximum over the imported objects, not as the value of whichever comes last", 1, "writes of single-key families in genesis import")
 	e.genesisCountersAreMax(r, "R6")
 	// the confirming oracle is resolved from the submitting bridger through the bridger index (0x14): that index must agree
@@ -840,5 +842,80 @@ func (e *Engine) genesisCountersAreMax(r *Report, rule string) {
 	}
 	if n == 0 {
 		r.Fail(rule, "genesis counters", "", "UNRESOLVED-ANCHOR: genesis import writes no single-key family")
+	}
+}
+
+
+// c12SingleSignatureDomain (R8): the functions that recover a signer from a checkpoint signature (callers, direct or through
+// fx-core helpers, of crypto.SigToPub / Ecrecover) call the recovery once per verification: a call on a cycle of the control
+// flow tries several pre-images (headers) and accepts any (round-8 seed C12: the tron verifier also accepted the Ethereum
+// header).
+func (e *Engine) c12SingleSignatureDomain(r *Report) {
+	reaches := map[*ssa.Function]bool{}
+	var reach func(f *ssa.Function, depth int) bool
+	reach = func(f *ssa.Function, depth int) bool {
+		if f == nil || f.Blocks == nil {
+			return false
+		}
+		if v, ok := reaches[f]; ok {
+			return v
+		}
+		if depth > 6 {
+			return false // not memoised: a deeper cut-off must not poison the answer for a shallower query
+		}
+		reaches[f] = false
+		hit := false
+		allCalls(f, func(c ssa.CallInstruction) {
+			n := callName(c)
+			if n == "SigToPub" || n == "Ecrecover" {
+				if sc := c.Common().StaticCallee(); sc == nil || !isFx(sc) {
+					hit = true
+				}
+			}
+			for _, g := range e.calleesOf(c) {
+				if isFx(g) && reach(g, depth+1) {
+					hit = true
+				}
+			}
+		})
+		if hit || depth == 0 {
+			reaches[f] = hit
+		} else {
+			delete(reaches, f)
+		}
+		return hit
+	}
+	n := 0
+	for _, fn := range e.Funcs {
+		pp := fnPkgPath(fn)
+		if isAuxPkg(pp) || !(strings.HasSuffix(pp, "/x/crosschain/types") || strings.HasSuffix(pp, "/x/tron/types")) {
+			continue
+		}
+		fn := fn
+		allCalls(fn, func(c ssa.CallInstruction) {
+			direct := false
+			if callName(c) == "SigToPub" || callName(c) == "Ecrecover" {
+				if sc := c.Common().StaticCallee(); sc == nil || !isFx(sc) {
+					direct = true
+				}
+			}
+			via := false
+			for _, g := range e.calleesOf(c) {
+				if isFx(g) && reach(g, 0) {
+					via = true
+				}
+			}
+			if !direct && !via {
+				return
+			}
+			n++
+			blk := c.Block()
+			last := blk.Instrs[len(blk.Instrs)-1]
+			ck := e.FnKey(fn) + " " + callName(c)
+			r.Check(!canReach(last, c), "R8", ck, e.InstrPos(c), "recovery runs once per verification", "the signer recovery runs inside a loop: the signature is tried against several pre-images (message headers) and accepted under any of them — a confirmation signed under another chain's header is stored although the external contract cannot verify it")
+		})
+	}
+	if n == 0 {
+		r.Fail("R8", "recover sites", "", "UNRESOLVED-ANCHOR: no call reaching SigToPub / Ecrecover in the signature helpers")
 	}
 }
